@@ -10,6 +10,12 @@ claimed = {
          "partial: the ternary operators and `not` are modelled (ternary as a composition of proved binary applies) and covered by the correspondence; their own theorems (apply3_sem, not_sem) are listed in DESIGN.md as still to be added."),
  "C04": ("Axiom-free Coq theorems: the fused binary operator denotes r(v)=op(a(flip_fa(flip_fo v)), b(flip_fb(flip_fo v))) with None the identity, for all valid operands and all flip choices in range (C04_fused_binary_flip_semantics), and rejects exactly out-of-range flips / different variable counts (C04_flip_bounds). Correspondence: all flip triples over <=2 variables exhaustively, random larger, fused vs. unfused composition through the public API compared with ==.",
          "partial: fused_ternary_flip_op is modelled by composition and covered by correspondence only; fused==unfused is checked dynamically (theorem fused_eq_unfused still to be added)."),
+ "C02": ("Axiom-free Coq theorems: two canonical diagrams (valid, reduced, DFS post-order high-first, nothing unreachable) over the same variable count denoting the same function are the same array (C02_canonical_unique); the executable checker canonicalb decides that predicate (C02_checker_decides); is_false/is_true are exact on canonical diagrams; binary, ternary and nested operators return canonical results on merely valid operands; not and projection preserve canonicity. Correspondence: histories of 4..30 public operations from library constructors; every produced Bdd is checked with the extracted canonicalb and an independent Python scan; identity programs compare ==, Hash stream, text and bytes along two histories.",
+         "partial: canonicity-preservation theorems exist for the engine-based operators, not, projection; for the remaining producers (restrict, substitute, normal-form and threshold constructors, renaming/transfer, deserialisation) canonicity is established per run by canonicalb on the implementation's output plus canonical_unique, with per-producer theorems being added (DESIGN.md §4 C02). The history induction theorem over the register language is not yet stated."),
+ "C03": ("Axiom-free Coq theorems: var_exists/var_for_all, exists/for_all, binary_op_with_exists/for_all and binary_op_nested (inner or/and) denote exactly the existential/universal projection over the listed/triggered variables of the outer operator's result, for any list (order, repetition, out-of-range), any consistent outer table, any valid operands; the result is canonical, independent of the quantified variables and depends only on the set of listed variables (C03_*). The model is operate-then-project-one-variable-at-a-time; by canonicity its array must equal the nested apply's. Correspondence on all subsets with duplicated permutations over <=3 variables and random larger cases; exists vs iterated var_exists compared with ==.",
+         "nested apply's internal stack machine is not modelled (only its result, which canonicity pins to the array)."),
+ "C05": ("Axiom-free Coq theorems: the limited operator returns Some r exactly when the unrestricted result r has at most limit nodes and then r itself, for every limit incl. 0 and 1 (C05_limit_exact, proved about a step-faithful limited engine by a structural simulation argument); cmp_implies orders by implication exactly (C05_cmp_implies). Correspondence: every limit 0..size+2, dry runs for every limit.",
+         "partial: the dry-run clauses (flag == !is_false, count >= decision nodes, None iff count > limit) are decided by the correspondence against the step-faithful model `dry_run` and the implementation's own unrestricted result; their theorems (dry_flag, dry_limit, dry_count_bound) are not yet proved."),
 }
 checks = []
 for pid, (text, note) in claimed.items():
